@@ -63,7 +63,8 @@ func (b *rec) flush(cs *fw.Case) {
 	cs.C.Data(map[string]any{"e": b.evs})
 	cs.C.Cover("evaluations", int64(len(b.evs)))
 	cs.Cover("cases:" + cs.Monitor)
-	if len(b.evs) > 0 {
+	switch cs.Monitor { // a few written-out cases for the evidence (the oracle adds judged ones with reference and tolerance)
+	case "gammainc.sweep", "psi.sweep", "bessel.sweep", "misc.sweep":
 		cs.Sample(map[string]any{"first_evaluation": b.evs[0], "evaluations_in_case": len(b.evs)})
 	}
 }
